@@ -162,3 +162,44 @@ def rule_mac_source(chk, P, rid, floor=4):
                                 r.check(max(mi) < max(ciph), key, seq[max(ciph)][1]['loc'],
                                         '%s: the decrypt arm runs the cipher before the ciphertext is authenticated (in-place operation '
                                         'would authenticate plaintext)' % f.name)
+
+
+def rule_consume_and_clear(chk, P, rid, floor=2):
+    """a pending-byte count kept in a context record: the block that hands `ctx->F` to a routine as a length and then sets `ctx->F = 0`
+    (flush what is pending) is entered on a test of that very field - guarded by anything else, pending bytes are dropped or an empty
+    buffer is flushed"""
+    r = chk.rule(rid, 'a block that passes a context field to a call as a length and then clears that field is entered on a condition that tests '
+                      'the same field (pending bytes are flushed exactly when there are some)', floor=floor)
+    seen = set()
+    for tu in P.tus():
+        for f in P.funcs(tu):
+            if (f.name, f.loc) in seen:
+                continue
+            seen.add((f.name, f.loc))
+            for bid, b in f.blocks.items():
+                cleared = {}
+                passed = set()
+                for ev in b['ev']:
+                    if ev['k'] == 'call':
+                        for a in ev['e'].get('a', []):
+                            x = cf.strip_casts(a)
+                            if isinstance(x, dict) and x.get('k') == 'mem' and re.search(r'context|ctx', x.get('rec') or '', re.I):
+                                passed.add(x['f'])
+                    elif ev['k'] == 'assign' and ev.get('op') in (None, '=') and cf.evalc(ev.get('rhs') or {}) == 0:
+                        l = cf.strip_casts(ev['lhs'])
+                        if isinstance(l, dict) and l.get('k') == 'mem' and re.search(r'context|ctx', l.get('rec') or '', re.I) and l['f'] in passed:
+                            cleared[l['f']] = ev
+                for fld, ev in cleared.items():
+                    preds = f.pred[bid]
+                    if len(preds) != 1:
+                        continue
+                    t = f.blocks[preds[0]].get('term')
+                    if not t or t['kind'] != 'IfStmt' or f.blocks[preds[0]]['succ'][0] != bid:
+                        continue
+                    c = t.get('fullcond') or t.get('cond') or {}
+                    tests = any(nd.get('k') == 'mem' and nd.get('f') == fld for nd in cf.walk(c))
+                    r.check(tests, '%s:%s@%s' % (f.name, fld, ev['loc'].split('/')[-1]), ev['loc'],
+                            '%s hands ctx->%s to a routine and clears it at %s, but the block is entered on `%s`, which does not look at ctx->%s: '
+                            'bytes pending from earlier calls are dropped (or an empty buffer is processed)' % (
+                                f.name, fld, ev['loc'], cf.render(c)[:80], fld))
+    return r
